@@ -523,13 +523,13 @@ func main() {
 	run.Case("conc:discallonce", "conc discallonce 3000", runChild("discallonce", 3000))
 
 	// ---- random sequences ----
-	for s, n := 0, run.Scale(150, 1500); s < n; s++ {
+	for s, n := 0, run.Scale(150, 1000); s < n; s++ {
 		randomSequence(run, r, 30+r.Intn(50))
 	}
 
 	// ---- concurrent stress (children) ----
-	iters := run.Scale(2000, 20000)
-	for k, rounds := 0, run.Scale(1, 4); k < rounds; k++ {
+	iters := run.Scale(2000, 12000)
+	for k, rounds := 0, run.Scale(1, 2); k < rounds; k++ {
 		for _, scn := range []string{"players", "discall", "srange", "servers"} {
 			run.Case("conc:"+scn, fmt.Sprintf("conc %s %d", scn, iters), runChild(scn, iters))
 		}
